@@ -91,6 +91,7 @@ func runC09(c *Ctx) {
 			continue
 		}
 		var indentParam types.Object
+		var policies []policyArg
 		hasNodes := false
 		// a method of an unexported writer type: the mode may be a boolean field of the receiver
 		if nodesWriter.Recv != nil {
@@ -135,6 +136,21 @@ func runC09(c *Ctx) {
 					indentParam = info.Defs[prm.Names[0]]
 				}
 			}
+			// … or a policy that gives the trailing space itself; then the single-line entry point must hand in one that
+			// never gives a line break, and the breaks are the ones the other policies give
+			if sig, ok := t.Underlying().(*types.Signature); ok && len(prm.Names) == 1 && sig.Results().Len() == 1 && strings.HasSuffix(sig.Results().At(0).Type().String(), "TrailingSpace") {
+				pols := policyArguments(p, nodesWriter, info.Defs[prm.Names[0]])
+				plain := false
+				for _, pol := range pols {
+					if !pol.breaks {
+						plain = true
+					}
+				}
+				if plain {
+					indentParam = info.Defs[prm.Names[0]]
+					policies = pols
+				}
+			}
 			if strings.HasSuffix(t.String(), "[]"+pkgParser+".Node") || t.String() == "[]"+pkgParser+".Node" {
 				hasNodes = true
 			}
@@ -144,6 +160,14 @@ func runC09(c *Ctx) {
 		}
 		nWriters++
 		key := funcKey(p, nodesWriter)
+		for _, pol := range policies {
+			if pol.breaks {
+				nBreaks++
+				c.ok("C09.R1", key+"|policy:"+pol.name, c.pos(pol.pos), "gives line breaks; chosen by the entry point that indents")
+			} else {
+				c.ok("C09.R1", key+"|policy:"+pol.name, c.pos(pol.pos), "never gives a line break: the single-line mode")
+			}
+		}
 		isTS := func(e ast.Expr) bool {
 			t := info.TypeOf(e)
 			return t != nil && strings.HasSuffix(t.String(), "TrailingSpace")
@@ -648,6 +672,65 @@ func alwaysFalseArgument(p *packages.Package, fd *ast.FuncDecl, prm types.Object
 		})
 	}
 	return found
+}
+
+// policyArguments: the functions (declared or literal) the calls of fd pass for the function-typed parameter prm, each
+// with whether a line-break constant occurs in it.
+type policyArg struct {
+	name   string
+	pos    token.Pos
+	breaks bool
+}
+
+func policyArguments(p *packages.Package, fd *ast.FuncDecl, prm types.Object) []policyArg {
+	info := p.TypesInfo
+	idx := -1
+	for i, ob := range paramObjs(info, fd) {
+		if ob == prm {
+			idx = i
+		}
+	}
+	if idx < 0 {
+		return nil
+	}
+	var out []policyArg
+	unknown := false
+	for _, f := range allFuncDecls(p) {
+		ast.Inspect(f, func(n ast.Node) bool {
+			call, ok := n.(*ast.CallExpr)
+			if !ok || calleeOf(info, call) != info.Defs[fd.Name] || idx >= len(call.Args) {
+				return true
+			}
+			switch a := ast.Unparen(call.Args[idx]).(type) {
+			case *ast.FuncLit:
+				out = append(out, policyArg{"func literal", a.Pos(), hasNL(info, &ast.ParenExpr{X: a})})
+			case *ast.Ident:
+				if fn, ok := info.Uses[a].(*types.Func); ok {
+					if d := findFunc(p, "", fn.Name()); d != nil && d.Body != nil {
+						brk := false
+						ast.Inspect(d.Body, func(m ast.Node) bool {
+							if e, ok := m.(ast.Expr); ok && hasNL(info, e) {
+								brk = true
+							}
+							return !brk
+						})
+						out = append(out, policyArg{fn.Name(), d.Pos(), brk})
+						return true
+					}
+				}
+				if info.ObjectOf(a) != prm { // (the writer handing its own policy on to itself for the children is fine)
+					unknown = true
+				}
+			default:
+				unknown = true
+			}
+			return true
+		})
+	}
+	if unknown {
+		return nil
+	}
+	return out
 }
 
 func conjunctHas(info *types.Info, cond ast.Expr, v types.Object) bool {
